@@ -30,6 +30,7 @@ CONSTANTS NT, NX, NV, MaxIds, MaxCommits, MaxLocks, MaxCrash,
           Fine,        \* TRUE: the log worker's deferral check and its plan are separate steps
           Fix,         \* subset of {"F18"}: repairs applied to the code
           Mut,         \* subset of {"no_inc", "no_defer", "no_used"}: guards dropped (necessity configs)
+          NoHist,      \* TRUE: the action history (needed only to print behaviours for replay) is not kept
           Shapes(_)    \* menu of child lists for a new tree, given the set of referable ids
 
 TKeys == 1..NT
@@ -47,6 +48,7 @@ vars == <<roots, nrc, nkids, xs, covlT, covlX, queue, inflight, toDeref, locked,
           hdrMark, leaked, ncrash, hist>>
 
 SeqSet(s) == {s[i] : i \in DOMAIN s}
+Hist(r) == IF NoHist THEN hist ELSE Append(hist, r)
 
 \* ids reachable from a set of ids through the (immutable) child lists
 RECURSIVE ReachFrom(_, _)
@@ -123,7 +125,7 @@ CommitIns(k, sh, st) ==
        /\ covlT' = [covlT EXCEPT ![k] = [cid |-> nextCid, root |-> root]]
        /\ ideal' = [ideal EXCEPT ![k] = root]
        /\ queue' = Append(queue, tx)
-       /\ hist' = Append(hist, [a |-> "Commit", tx |-> tx, sh |-> sh])
+       /\ hist' = Hist([a |-> "Commit", tx |-> tx, sh |-> sh])
     /\ UNCHANGED <<toDeref>>
 
 CommitDeref(k, st) ==
@@ -132,7 +134,7 @@ CommitDeref(k, st) ==
     /\ LET tx == [cid |-> nextCid, tree |-> [t |-> "deref", k |-> k, kids |-> VisibleRoot(k).kids],
                   set |-> st, used |-> {}] IN
        /\ queue' = Append(queue, tx)
-       /\ hist' = Append(hist, [a |-> "Commit", tx |-> tx, sh |-> <<>>])
+       /\ hist' = Hist([a |-> "Commit", tx |-> tx, sh |-> <<>>])
     /\ toDeref' = [toDeref EXCEPT ![k] = @ + 1]
     /\ ideal' = [ideal EXCEPT ![k] = IF @.rc = 1 THEN NoRoot ELSE [@ EXCEPT !.rc = @ - 1]]
     /\ UNCHANGED <<nkids, nrc, nextId, covlT>>
@@ -141,7 +143,7 @@ CommitRef(k, st) ==
     /\ RcRoots /\ ~AO /\ ideal[k].rc > 0
     /\ LET tx == [cid |-> nextCid, tree |-> [t |-> "ref", k |-> k], set |-> st, used |-> {}] IN
        /\ queue' = Append(queue, tx)
-       /\ hist' = Append(hist, [a |-> "Commit", tx |-> tx, sh |-> <<>>])
+       /\ hist' = Hist([a |-> "Commit", tx |-> tx, sh |-> <<>>])
     /\ ideal' = [ideal EXCEPT ![k].rc = @ + 1]
     /\ UNCHANGED <<nkids, nrc, nextId, covlT, toDeref>>
 
@@ -149,8 +151,15 @@ CommitSetOnly(st) ==
     /\ st.x # 0
     /\ LET tx == [cid |-> nextCid, tree |-> [t |-> "none"], set |-> st, used |-> {}] IN
        /\ queue' = Append(queue, tx)
-       /\ hist' = Append(hist, [a |-> "Commit", tx |-> tx, sh |-> <<>>])
+       /\ hist' = Hist([a |-> "Commit", tx |-> tx, sh |-> <<>>])
     /\ UNCHANGED <<nkids, nrc, nextId, covlT, toDeref, ideal>>
+
+\* what every accepted commit_changes call does besides its tree operation
+CommitCommon(st) ==
+    /\ covlX' = IF st.x = 0 THEN covlX ELSE [covlX EXCEPT ![st.x] = [cid |-> nextCid, v |-> st.v]]
+    /\ idealX' = IF st.x = 0 THEN idealX ELSE [idealX EXCEPT ![st.x] = st.v]
+    /\ nextCid' = nextCid + 1 /\ ncommits' = ncommits + 1
+    /\ UNCHANGED <<roots, xs, inflight, locked, snap, nlocks, conflictT, conflictX, corrupt, hdrMark, leaked, ncrash>>
 
 Commit ==
     /\ ncommits < MaxCommits
@@ -159,10 +168,7 @@ Commit ==
           \/ \E k \in TKeys : CommitDeref(k, st)
           \/ \E k \in TKeys : CommitRef(k, st)
           \/ CommitSetOnly(st)
-       /\ covlX' = IF st.x = 0 THEN covlX ELSE [covlX EXCEPT ![st.x] = [cid |-> nextCid, v |-> st.v]]
-       /\ idealX' = IF st.x = 0 THEN idealX ELSE [idealX EXCEPT ![st.x] = st.v]
-    /\ nextCid' = nextCid + 1 /\ ncommits' = ncommits + 1
-    /\ UNCHANGED <<roots, xs, inflight, locked, snap, nlocks, conflictT, conflictX, corrupt, hdrMark, leaked, ncrash>>
+       /\ CommitCommon(st)
 
 --------------------------------------------------------------------------
 (* Readers: get_tree(..).read() + get_root() under the lock                *)
@@ -172,14 +178,14 @@ Lock(k) ==
     /\ k \notin WLocked
     /\ locked' = locked \cup {k} /\ snap' = [snap EXCEPT ![k] = VisibleRoot(k)]
     /\ nlocks' = nlocks + 1
-    /\ hist' = Append(hist, [a |-> "Lock", k |-> k])
+    /\ hist' = Hist([a |-> "Lock", k |-> k])
     /\ UNCHANGED <<roots, nrc, nkids, xs, covlT, covlX, queue, inflight, toDeref, nextId, nextCid,
                    ncommits, ideal, idealX, conflictT, conflictX, corrupt, hdrMark, leaked, ncrash>>
 
 Unlock(k) ==
     /\ k \in locked
     /\ locked' = locked \ {k} /\ snap' = [snap EXCEPT ![k] = NoRoot]
-    /\ hist' = Append(hist, [a |-> "Unlock", k |-> k])
+    /\ hist' = Hist([a |-> "Unlock", k |-> k])
     /\ UNCHANGED <<roots, nrc, nkids, xs, covlT, covlX, queue, inflight, toDeref, nextId, nextCid,
                    ncommits, nlocks, ideal, idealX, conflictT, conflictX, corrupt, hdrMark, leaked, ncrash>>
 
@@ -208,7 +214,7 @@ Defer ==
        /\ covlX' = IF tx.set.x = 0 THEN covlX ELSE [covlX EXCEPT ![tx.set.x] = [cid |-> nextCid, v |-> tx.set.v]]
        /\ conflictT' = conflictT \cup {k \in TreeKeyOf(tx) : \E i \in DOMAIN rest : k \in TreeKeyOf(rest[i])}
        /\ conflictX' = conflictX \cup {x \in XKeys : x = tx.set.x /\ \E i \in DOMAIN rest : rest[i].set.x = x}
-       /\ hist' = Append(hist, [a |-> "Defer", cid |-> tx.cid, ncid |-> nextCid])
+       /\ hist' = Hist([a |-> "Defer", cid |-> tx.cid, ncid |-> nextCid])
     /\ nextCid' = nextCid + 1
     /\ UNCHANGED <<roots, nrc, nkids, xs, covlT, inflight, toDeref, locked, snap, nextId, ncommits,
                    nlocks, ideal, idealX, corrupt, hdrMark, leaked, ncrash>>
@@ -263,7 +269,7 @@ Pop ==
     /\ Fine /\ queue # <<>> /\ inflight = <<>>
     /\ PopOK(Head(queue), Tail(queue))
     /\ inflight' = <<Head(queue)>> /\ queue' = Tail(queue)
-    /\ hist' = Append(hist, [a |-> "Pop", cid |-> Head(queue).cid])
+    /\ hist' = Hist([a |-> "Pop", cid |-> Head(queue).cid])
     /\ UNCHANGED <<roots, nrc, nkids, xs, covlT, covlX, locked, snap, nextId, nextCid, ncommits,
                    nlocks, ideal, idealX, conflictT, conflictX, corrupt, hdrMark, leaked, ncrash>>
 
@@ -273,7 +279,7 @@ Apply ==
     /\ LET tx == inflight[1] IN
        /\ NeedsWriteLock(tx) => tx.tree.k \notin locked
        /\ ApplyTx(tx)
-       /\ hist' = Append(hist, [a |-> "Apply", cid |-> tx.cid])
+       /\ hist' = Hist([a |-> "Apply", cid |-> tx.cid])
     /\ inflight' = <<>>
     /\ hdrMark' = nextId
     /\ UNCHANGED <<nkids, queue, toDeref, locked, snap, nextId, nextCid, ncommits, nlocks, ideal,
@@ -285,7 +291,7 @@ Process ==
     /\ LET tx == Head(queue) IN
        /\ PopOK(tx, Tail(queue))
        /\ ApplyTx(tx)
-       /\ hist' = Append(hist, [a |-> "Process", cid |-> tx.cid])
+       /\ hist' = Hist([a |-> "Process", cid |-> tx.cid])
     /\ queue' = Tail(queue)
     /\ hdrMark' = nextId
     /\ UNCHANGED <<nkids, inflight, locked, snap, nextId, nextCid, ncommits, nlocks, ideal, idealX,
@@ -297,15 +303,16 @@ Process ==
 \* neither used nor free (hdrMark: ids below it are covered by a logged header).
 QueuedNew == UNION {{e.id : e \in SeqSet(queue[i].tree.new)} : i \in {j \in DOMAIN queue : queue[j].tree.t = "ins"}}
 Crash ==
-    /\ ncrash < MaxCrash /\ inflight = <<>> /\ locked = {} /\ conflictT = {} /\ conflictX = {}
+    /\ ncrash < MaxCrash /\ inflight = <<>> /\ locked = {}
     /\ leaked' = leaked \cup {n \in QueuedNew : n < hdrMark}
     /\ nrc' = [n \in Ids |-> IF n \in QueuedNew THEN 0 ELSE nrc[n]]
     /\ queue' = <<>> /\ toDeref' = [k \in TKeys |-> 0]
     /\ covlT' = [k \in TKeys |-> [cid |-> 0, root |-> NoRoot]]
     /\ covlX' = [x \in XKeys |-> [cid |-> 0, v |-> 0]]
+    \* (the client's view is re-based on what was recovered; keys touched by the known reordering stay marked)
     /\ ideal' = roots /\ idealX' = xs
     /\ ncrash' = ncrash + 1
-    /\ hist' = Append(hist, [a |-> "Crash"])
+    /\ hist' = Hist([a |-> "Crash"])
     /\ UNCHANGED <<roots, nkids, xs, inflight, locked, snap, nextId, nextCid, ncommits, nlocks,
                    conflictT, conflictX, corrupt, hdrMark>>
 
